@@ -64,6 +64,25 @@ func critical(ctx context.Context, st *GState, what string) {
 		}
 		atomic.AddInt32(&mon.Entered, 1)
 	}
+	if env != nil && st != nil {
+		env.mu.Lock()
+		if env.SeenStates == nil {
+			env.SeenStates = map[string]*GState{}
+		}
+		gp := what[indexByte(what, ':')+1:]
+		if i := lastIndexByte(gp, '/'); i >= 0 {
+			gp = gp[:i+1]
+		} else {
+			gp = ""
+		}
+		env.SeenStates[gp] = st
+		env.seenSeq++
+		if env.SeenSeq == nil {
+			env.SeenSeq = map[string]int{}
+		}
+		env.SeenSeq[gp] = env.seenSeq
+		env.mu.Unlock()
+	}
 	if st != nil {
 		c := st.Count[what]
 		if mon != nil && mon.Yield != nil {
@@ -114,6 +133,22 @@ func castTo[T any](v any) T {
 func stateHandlerOpts[I, O any](n *NodeSpec, tag string) []compose.GraphAddNodeOpt {
 	var opts []compose.GraphAddNodeOpt
 	switch n.PreH {
+	case "r":
+		// the documented pattern for nodes that ask for interrupt-and-rerun: remember the input in the
+		// state, rebuild it from the state when the node is re-run with a zero input
+		opts = append(opts, compose.WithStatePreHandler(func(ctx context.Context, in I, st *GState) (I, error) {
+			critical(ctx, st, "pre:"+tag)
+			if s, ok := any(in).(string); ok {
+				if s == "" {
+					return castTo[I](any(st.Hold[tag])), nil
+				}
+				if st.Hold == nil {
+					st.Hold = map[string]string{}
+				}
+				st.Hold[tag] = s
+			}
+			return in, nil
+		}))
 	case "v":
 		opts = append(opts, compose.WithStatePreHandler(func(ctx context.Context, in I, st *GState) (I, error) {
 			critical(ctx, st, "pre:"+tag)
@@ -215,4 +250,22 @@ func itoa(i int) string {
 		b = append([]byte{'-'}, b...)
 	}
 	return string(b)
+}
+
+func indexByte(s string, c byte) int {
+	for i := 0; i < len(s); i++ {
+		if s[i] == c {
+			return i
+		}
+	}
+	return -1
+}
+
+func lastIndexByte(s string, c byte) int {
+	for i := len(s) - 1; i >= 0; i-- {
+		if s[i] == c {
+			return i
+		}
+	}
+	return -1
 }
